@@ -119,6 +119,25 @@ def check_case(out: Outcome, case, tag):
     if abs(sum(loc.values()) * A * T - at_sites) > 1e-9 * max(1, at_sites):
         out.fail('property', 'atom-locations-sum', case, expected=at_sites / (A * T), observed=sum(loc.values()))
 
+    # --- occupancy of time parts: fraction of the PART's frames (states and trajectory are cut differently)
+    for n_parts in (2, 3):
+        try:
+            parts = tr.split(n_parts)
+        except Exception:  # noqa: BLE001
+            continue
+        for k, part in enumerate(parts):
+            ps = np.array(part.states)
+            if len(ps) == 0:
+                continue
+            want = [(ps == j).sum() / len(ps) for j in range(n)]
+            try:
+                pocc = [float(site.species.num_atoms) for site in part.occupancy()]
+            except Exception as e:  # noqa: BLE001
+                out.fail('property', 'occupancy-of-part', case, expected=want, observed=type(e).__name__ + ': ' + str(e)[:80], note=f'part {k} of {n_parts}')
+                break
+            if not np.allclose(pocc, want, rtol=0, atol=1e-12):
+                out.fail('property', 'occupancy-of-part', case, expected=want, observed=pocc, note=f'part {k} of {n_parts}')
+                break
     # --- jumps
     try:
         jumps = Jumps(tr)
